@@ -228,6 +228,25 @@ def main(argv=None):
 
     def undecided(msg, code=EXIT_UNDECIDED):
         print("UNDECIDED property=%s %s" % (prop, msg))
+        # The contracts no longer fit the code (refactoring, unsupported construct): no proof either way.
+        # The bounded search of the replay driver still runs the real functions against the property's
+        # postconditions; only a natively reproduced failure is reported as a violation.
+        class _O:
+            name, kind, line, info = "%s::contract-after-drift" % prop, "drift", 0, msg
+        rp = replay(prop, _O, None, tier)
+        if rp.get("reproduced") and not any(re.search(k["obligation"], _O.name) for k in known_findings(prop)):
+            os.makedirs(os.path.join(ROOT, "replays", prop), exist_ok=True)
+            fn = os.path.join(ROOT, "replays", prop, "contract-after-drift.json")
+            json.dump({"property": prop, "obligation": _O.name, "undecided_reason": msg, "replay": rp,
+                       "note": "contracts could not be applied to the changed code; failing input found by the bounded search on the real code",
+                       "replay_cmd": "./check %s --tier %s" % (prop, tier)}, open(fn, "w"), indent=1, default=str)
+            ev = {"property_id": prop, "tier": tier, "seed": seed, "level": "other",
+                  "coverage": {"explanation": "spec drift (%s); bounded replay search found a failing input" % msg},
+                  "wall_s": time.time() - t_start, "violations": 1}
+            json.dump(ev, open(ev_path, "w"), indent=1)
+            print("failed obligation: %s" % _O.name)
+            print("VIOLATION property=%s replay=%s" % (prop, fn))
+            return EXIT_VIOLATION
         ev = {"property_id": prop, "tier": tier, "seed": seed, "level": "other",
               "coverage": {"explanation": "check undecided: " + msg}, "wall_s": time.time() - t_start, "violations": 0}
         json.dump(ev, open(ev_path, "w"), indent=1)
@@ -333,6 +352,20 @@ def main(argv=None):
                "replay_cmd": "./check %s --tier %s" % (prop, tier)}
         json.dump(rec, open(fn, "w"), indent=1, default=str)
         violations.append((o.name, fn, bool(rp.get("reproduced"))))
+    if unknown and not violations:
+        # an obligation the solvers leave open is not a verdict; a bounded search on the real code may still
+        # produce a failing input (DESIGN 5.4). Only a natively reproduced failure is reported.
+        o, r = unknown[0]
+        if not is_known(o.name, o.info or ""):
+            rp = replay(prop, o, None, tier)
+            if rp.get("reproduced"):
+                fn = os.path.join(ROOT, "replays", prop, re.sub(r"[^A-Za-z0-9_.@#\[\]-]+", "_", o.name)[-150:] + ".json")
+                rec = {"property": prop, "obligation": o.name, "kind": o.kind, "line": o.line, "info": o.info,
+                       "solver": {"result": r["result"], "detail": r.get("detail")}, "model": None, "replay": rp,
+                       "note": "the solvers left this obligation undecided; the failing input was found by the bounded search of the replay driver",
+                       "smt2": r["smt2"][:20000], "replay_cmd": "./check %s --tier %s" % (prop, tier)}
+                json.dump(rec, open(fn, "w"), indent=1, default=str)
+                violations.append((o.name, fn, True))
     for nv in native_viol:
         k = is_known(nv["name"], nv.get("witness", ""))
         if k:
